@@ -131,6 +131,10 @@ def catalogue_v2(info):
         ('set_attribute', [kdrv.set_attribute('1', kdrv.attr_value('SENSITIVE', True))]),
         ('modify_attribute2', [kdrv.modify_attribute_v2('1', kdrv.attr_value('SENSITIVE', False))]),
         ('delete_attribute2', [kdrv.delete_attribute_v2('1', reference=kdrv.attr_ref2('Name'))]),
+        # the result has no attribute at all: GetAttributesResponsePayload.write raises under 2.0 (repaired session answers
+        # GENERAL_FAILURE instead of nothing, /repo commit d6c2cec)
+        ('get_attributes_unset', [kdrv.get_attributes('1', ['Bogus Name'])]),
+        ('get_attributes_unset2', [kdrv.get_attributes('5', ['Contact Information', 'Application Specific Information'])]),
     ]
 
 
@@ -449,7 +453,7 @@ def run(ctx):
             keep = special_frames(rng, valid)
             bad = rng.sample(bad, 1500 - len(keep)) + keep
         rng.shuffle(bad)
-        probes = [x for x in valid if x[0] in ('get', 'create', 'locate', 'query', 'get_attributes', 'encrypt', 'batch2')]
+        probes = [x for x in valid if x[0] in ('get', 'create', 'locate', 'query', 'get_attributes', 'encrypt', 'batch2', 'get_attributes_unset')]
         pa, pb = pool.fresh(), pool.fresh()
         group_n = 0
         for k in range(0, len(bad), 4):
